@@ -304,6 +304,63 @@ func checkMappingFinalized(c *core.Ctx, fns []*ssa.Function, mmapFn *types.Func,
 			}
 		}
 	}
+	// a helper that registers the finalizer on every path to its return is itself a registration site for its callers
+	// (completeCachedModule …): propagated to a fixed point
+	for changed := true; changed; {
+		changed = false
+		for _, fn := range fns {
+			if len(fn.Blocks) == 0 || len(finSites[fn]) == 0 {
+				continue
+			}
+			// every path entry → return passes a site
+			seen := map[*ssa.BasicBlock]bool{}
+			var visit func(b *ssa.BasicBlock) bool
+			visit = func(b *ssa.BasicBlock) bool {
+				for _, in := range b.Instrs {
+					if call, ok := in.(*ssa.Call); ok && finSites[fn][call] != nil {
+						return true
+					}
+				}
+				if len(b.Instrs) > 0 {
+					if _, ok := b.Instrs[len(b.Instrs)-1].(*ssa.Return); ok {
+						return false
+					}
+				}
+				for _, sb := range b.Succs {
+					if seen[sb] {
+						continue
+					}
+					seen[sb] = true
+					if !visit(sb) {
+						return false
+					}
+				}
+				return true
+			}
+			if !visit(fn.Blocks[0]) {
+				continue
+			}
+			var T *types.Named
+			for _, t := range finSites[fn] {
+				T = t
+			}
+			for _, caller := range fns {
+				for _, b := range caller.Blocks {
+					for _, in := range b.Instrs {
+						if call, ok := in.(*ssa.Call); ok && call.Common().StaticCallee() == fn && caller != fn {
+							if finSites[caller] == nil {
+								finSites[caller] = map[*ssa.Call]*types.Named{}
+							}
+							if finSites[caller][call] == nil {
+								finSites[caller][call] = T
+								changed = true
+							}
+						}
+					}
+				}
+			}
+		}
+	}
 	errIdx := func(fn *ssa.Function) int {
 		res := fn.Signature.Results()
 		for i := 0; i < res.Len(); i++ {
@@ -1397,18 +1454,59 @@ func checkOwnerFree(c *core.Ctx) {
 					continue
 				}
 				n++
+				loads := func(v ssa.Value) bool {
+					u, ok := v.(*ssa.UnOp)
+					if !ok {
+						return false
+					}
+					fa, ok := u.X.(*ssa.FieldAddr)
+					return ok && fieldOfAddr(fa) == owner
+				}
+				// a predicate of the package whose every true result is the owner comparison (ownsMemory)
+				ownerPredicate := func(f *ssa.Function) bool {
+					if f == nil || f.Blocks == nil || f.Pkg != fn.Pkg {
+						return false
+					}
+					found := false
+					var okVal func(v ssa.Value, d int) bool
+					okVal = func(v ssa.Value, d int) bool {
+						if d > 6 {
+							return false
+						}
+						switch x := v.(type) {
+						case *ssa.Const:
+							return x.Value != nil && x.Value.String() == "false"
+						case *ssa.BinOp:
+							if x.Op == token.EQL && (loads(x.X) || loads(x.Y)) {
+								found = true
+								return true
+							}
+						case *ssa.Phi:
+							for _, e := range x.Edges {
+								if !okVal(e, d+1) {
+									return false
+								}
+							}
+							return true
+						}
+						return false
+					}
+					for _, bb := range f.Blocks {
+						if r, ok := bb.Instrs[len(bb.Instrs)-1].(*ssa.Return); ok {
+							if len(r.Results) != 1 || !okVal(r.Results[0], 0) {
+								return false
+							}
+						}
+					}
+					return found
+				}
 				guarded := guardedBy(b, func(cond ssa.Value) int {
+					if pc, isCall := cond.(*ssa.Call); isCall && ownerPredicate(pc.Common().StaticCallee()) {
+						return 1
+					}
 					bo, ok := cond.(*ssa.BinOp)
 					if !ok || (bo.Op != token.EQL && bo.Op != token.NEQ) {
 						return 0
-					}
-					loads := func(v ssa.Value) bool {
-						u, ok := v.(*ssa.UnOp)
-						if !ok {
-							return false
-						}
-						fa, ok := u.X.(*ssa.FieldAddr)
-						return ok && fieldOfAddr(fa) == owner
 					}
 					if loads(bo.X) || loads(bo.Y) {
 						if bo.Op == token.EQL {
